@@ -4622,6 +4622,24 @@ impl<'a> Parser<'a> {
 
     /// Parse a metadata value (string, number, bool, array, or object).
     fn parse_meta_value(&mut self) -> Result<MetaValue, ParseError> {
+        // Nested `{..}`/`[..]` metadata recurses here once per level; charge it
+        // against the same ceiling as expression nesting.
+        self.expr_depth += 1;
+        let result = if self.expr_depth > MAX_EXPR_DEPTH {
+            Err(ParseError::new(
+                format!("metadata nesting exceeds depth limit of {MAX_EXPR_DEPTH}"),
+                self.pos,
+            ))
+        } else {
+            self.parse_meta_value_inner()
+        };
+        self.expr_depth -= 1;
+        result
+    }
+
+    /// The real `parse_meta_value` body, entered only through the depth-checked
+    /// wrapper above.
+    fn parse_meta_value_inner(&mut self) -> Result<MetaValue, ParseError> {
         self.skip_ws();
 
         match self.peek() {
